@@ -27,7 +27,9 @@ NameClasses == {"plain", "upper", "digits_first", "spaces", "dashes", "dots", "p
                 "member_Validate", "member_Context", "member_HTTPClient", "member_Error", "receiver_o", "receiver_m", "slash", "initialism", "camel", "underscore_first",
                 "dollar", "single_letter", "go_test_suffix",
                 \* names that become a Go keyword only once mangled to a variable name
-                "keyword_cap_Type", "keyword_cap_Range", "keyword_cap_Default", "keyword_cap_Func", "keyword_cap_Map"}
+                "keyword_cap_Type", "keyword_cap_Range", "keyword_cap_Default", "keyword_cap_Func", "keyword_cap_Map",
+                \* characters that end a Go string literal (names are copied into struct tags and string constants)
+                "backquote", "doublequote", "backslash"}
 
 Case(k, d, pos, cls, t, m, o) == [kind |-> k, doc |-> d, pos |-> pos, cls |-> cls, target |-> t, mode |-> m, opts |-> o]
 DocCases == {Case("doc", d, "-", "-", t, m, o) : d \in DocKinds, t \in Targets, m \in Modes, o \in OptionSets}
